@@ -371,7 +371,7 @@ class SymEnv:
         if self._check(other) == z3.sat:
             self.pending.append(self.dec + [not d])
         self.dec.append(d)
-        self.solver.add(cond if d else other)
+        self.solver.add(cond if d else z3.Not(cond))
         # cached model still satisfies the branch taken
         return d
 
@@ -595,6 +595,7 @@ def explore(fn, params, prefixes, budget_s, solver_timeout_ms=60000,
 def replay(fn, params, inputs):
     """Concrete replay.  Returns (list of failures, exception text or None)."""
     env = ConcEnv(inputs)
+    _Ctx.cur = env
     try:
         fn(env, **params)
     except Abort:
@@ -603,4 +604,6 @@ def replay(fn, params, inputs):
         return env.failures + [dict(
             key="exception:" + type(e).__name__,
             info=traceback.format_exc()[-1500:])], env
+    finally:
+        _Ctx.cur = None
     return env.failures, env
